@@ -330,7 +330,7 @@ func init() {
 			r.Assume("LoginURL of the simulated storage is https://login.idp.example/ui/login?authRequestID=<id>")
 			r.Require("outcome_accepted", 20)
 			r.Require("persist_fault_reached", 5)
-			r.Require("distinct_reply_shapes", 4)
+			r.Require("distinct_reply_shapes", 2)
 			r.Require("registration_unanswerable_checked", 100)
 			r.Require("registration_answerable_checked", 100)
 			return []core.Workload{
